@@ -303,7 +303,73 @@ def _unary_ops(tier: str) -> typing.List[typing.Tuple[str, int]]:
     return [("pad", 8), ("pad", 3), ("rep", 2), ("rep", 3), ("rng", 2), ("rng", 3)]
 
 
+LOOKALIKE = [([8, 40, 72], [8, 72]), ([0, 96, 192], [0, 192]), ([3, 35, 67, 99], [3, 99]), ([16, 48], [16, 48]),
+             ([1, 33, 65], [1, 65])]
+
+
+def make_lookalike(pair: int, op: str):
+    """
+    The same operation applied, in one process, to two DIFFERENT sets that agree on min, max and residues mod 32 (what
+    the approximate == / hash look at): each result must be that of its own operand (no result may be shared).
+    """
+    from pydsdl import BitLengthSet
+
+    class O_:
+        @staticmethod
+        def fold(vals: typing.Set[int], k: int) -> typing.Set[int]:
+            out = {0}
+            for _ in range(k):
+                out = {x + y for x in out for y in vals}
+            return out
+
+    def concrete(k: int, order: int) -> typing.Any:
+        a, b = LOOKALIKE[pair]
+        seq = [a, b] if order == 0 else [b, a]
+        for vals in seq + seq:
+            x = BitLengthSet(vals)
+            if op == "rep":
+                y, want = x.repeat(k), O_.fold(set(vals), k)
+            elif op == "rng":
+                y, want = x.repeat_range(k), set().union(*[O_.fold(set(vals), j) for j in range(k + 1)])
+            elif op == "pad":
+                r = [1, 3, 8, 64][k % 4]
+                y, want = x.pad_to_alignment(r), {-((-v) // r) * r for v in vals}
+            elif op == "cat":
+                y, want = x + BitLengthSet([k, 5]), {v + w for v in vals for w in (k, 5)}
+            else:
+                y, want = x | BitLengthSet([k]), set(vals) | {k}
+            got = {v for v in y}
+            if got != want:
+                return "%s(%s, %d) after the same operation on a look-alike set: %s, want %s" % (op, vals, k, sorted(got), sorted(want))
+            for d in (8, 32, 64, 7):
+                if {v for v in (y % d)} != {v % d for v in want}:
+                    return "%s(%s, %d) %% %d" % (op, vals, k, d)
+            if y.min != min(want) or y.max != max(want):
+                return "min/max"
+        return True
+
+    def h(k: int, order: int) -> typing.Any:
+        a, b = pick(k, 0, 3), pick(order, 0, 1)
+        if a is None or b is None:
+            return None
+        from .. import textio
+
+        return textio.native(concrete, a, b)
+
+    return h
+
+
 def conditions(tier: str, seed: int) -> typing.List[Cond]:
+    out = _conditions(tier, seed)
+    for pi in range(len(LOOKALIKE)):
+        for op in ("rep", "rng", "pad", "cat", "uni"):
+            out.append(Cond(PROP, "c01.lookalike", make_lookalike, {"pair": pi, "op": op}, {"k": int, "order": int}, kind="choice",
+                            assumptions=["two different sets equal in min, max and residues mod 32; parameter k in 0..3; both orders"],
+                            witness={"k": 2, "order": 0}, budget=120.0))
+    return out
+
+
+def _conditions(tier: str, seed: int) -> typing.List[Cond]:
     rnd = random.Random(seed)
     thorough = tier == "thorough"
     out = []  # type: typing.List[Cond]
@@ -334,6 +400,10 @@ def conditions(tier: str, seed: int) -> typing.List[Cond]:
     for d in [1, 2, 3] + ([4, 5, 8] if thorough else []):
         tree_cond("c01.node.cat", ["cat", L2, L1], [d], sugar=True, budget=400.0 if thorough else 120.0)
         tree_cond("c01.node.uni", ["uni", L2, L1], [d], sugar=True, budget=400.0 if thorough else 120.0)
+    for r1 in (2, 3, 4, 6, 8):
+        for r2 in (2, 3, 4, 6, 8):
+            # consecutive paddings (also with alignments that do not divide one another)
+            tree_cond("c01.node.padpad", ["pad", r2, ["pad", r1, L1]], [r2])
     tree_cond("c01.node.cat3", ["cat", L1, L2, L1], [2])
     tree_cond("c01.node.uni3", ["uni", L1, L1, L1], [2, 3] if thorough else [2], budget=300.0)
     for d in [8, 16] + ([5, 32, 64] if thorough else []):
